@@ -1,0 +1,6 @@
+//go:build !verif
+
+package txcache
+
+// verifPoint is a no-op unless the package is built with the "verif" tag (verification harness hooks)
+func verifPoint(_ string) {}
